@@ -223,7 +223,7 @@ def run(ck, m):
                 if const_str(r2) is not None:
                     tomb.add(const_str(r2))
     getters = [b for b in P.user_bodies() if b.kind == 'fn' and b.locals[0] == 'nundb::bo::Response' and b.argc == 2
-               and b.locals[1] == '&std::string::String' and b.locals[2] == '&nundb::bo::Database']
+               and core.is_str_ty(b.locals[1]) and b.locals[2] == '&nundb::bo::Database']
     dflt = set()
     for g in getters:
         for bl in g.blocks:
